@@ -105,6 +105,15 @@ func init() {
 		"strings.IndexByte":                    extIndexByte,
 		"bytes.IndexByte":                      extIndexByte,
 
+		// ---- go:linkname ----
+		"mime/multipart.readMIMEHeader": func(fr *frame, a []value) value {
+			pkg := fr.fn.Prog.ImportedPackage("net/textproto")
+			if pkg == nil || pkg.Func("readMIMEHeader") == nil {
+				panic(unsupported("net/textproto.readMIMEHeader not loaded"))
+			}
+			return call(fr.i, fr.caller, token.NoPos, pkg.Func("readMIMEHeader"), a)
+		},
+
 		// ---- internal/abi, runtime, misc ----
 		"internal/abi.NoEscape":                     func(fr *frame, a []value) value { return a[0] },
 		"internal/abi.Escape":                       func(fr *frame, a []value) value { return a[0] },
